@@ -62,6 +62,9 @@ print('RESULT' + json.dumps({'out': out, 'net': net}))
 '''
 
 
+SCRIBBLE = 'scribbled on by an earlier caller'
+
+
 def describe_error(e):
     """the error as a caller sees it: class, message and the path to the offending item"""
     return ['raise', type(e).__name__, str(getattr(e, 'message', ''))[:300], [str(x) for x in getattr(e, 'path', [])]]
@@ -73,7 +76,7 @@ def scribble(e):
         if hasattr(e, 'path'):
             e.path.clear()
         if hasattr(e, 'message'):
-            e.message = 'scribbled on by an earlier caller'
+            e.message = SCRIBBLE
         e.args = ('scribble',)
     except Exception:
         pass
@@ -209,6 +212,17 @@ class Monitor(object):
         ctx.count('eval.call')
         want = self.table.get(json.dumps(call))
         got = ['return', out.value] if out.ok else describe_error(out.value)
+        if not out.ok and (got[2] == SCRIBBLE or getattr(out.value, 'args', None) == ('scribble',)):
+            # the object an earlier caller caught (and scribbled on) has been raised again
+            ctx.violation('history:%s:the-error-raised-is-an-earlier-caller-s-object' % ('schema_valid' if call[0] == 'S' else 'valid_against_schema'),
+                          {'history': self.history[-25:], 'call': call}, 'an error of its own', got)
+            self.history.append(call)
+            return
+        if (ctx.ambient or {}).get('hashseed', '0') != '0' and want is not None and want[0] == 'raise' and got[0] == 'raise':
+            # which of several equally relevant errors jsonschema reports first depends on the string-hash seed; the table was
+            # made under seed 0, so message and path are compared in the seed-0 shards only
+            want = want[:2]
+            got = got[:2]
         warm = key_of(call) in [key_of(h) for h in self.history]
         self.history.append(call)
         if want is None:
